@@ -177,7 +177,7 @@ func vC13GenSession(r *vRng, thorough bool) vSx {
 					ops = append(ops, vC13Control(r))
 				}
 			}
-			if comp == 1 || !r.chance(1, 8) || i == nmsg-1 {
+			if !r.chance(1, 6) || i == nmsg-1 {
 				ops = append(ops, vL(vZ(4), vL()))
 			} else {
 				leftOpen = true // closed implicitly by the next NextWriter/WriteMessage
@@ -421,10 +421,18 @@ func TestVerifC13(t *testing.T) {
 			obs := vGuard(func() vSx { return vC13RunParse(c) })
 			k.record(c, obs, len(obs.l) == 4)
 			k.count("family", "parser")
+		case 5:
+			obs := vL(vZ(0), vS(computeAcceptKey(string(c.l[1].b))))
+			idx := k.record(c, obs, len(c.l[1].b) > 19)
+			k.count("family", "accept-key")
+			if string(obs.l[1].b) != vC13AcceptKey(string(c.l[1].b)) {
+				k.fail(idx, c.size(), "accept-key", "", "computeAcceptKey differs from base64(sha1(key + GUID)) computed with crypto/sha1")
+			}
 		case 4:
 			var oracle string
-			obs := vGuard(func() vSx { o, m := vC13RunHandshake(c); oracle = m; return o })
-			idx := k.record(c, obs, c.l[2].int() != 0)
+			cout := c
+			obs := vGuard(func() vSx { co, o, m := vC13RunHandshake(c); cout, oracle = co, m; return o })
+			idx := k.record(cout, obs, c.l[2].int() != 0)
 			k.count("family", "handshake")
 			if oracle != "" {
 				k.fail(idx, c.size(), "handshake-rfc", "", oracle)
@@ -439,12 +447,16 @@ func TestVerifC13(t *testing.T) {
 		runOne(c)
 	}
 	for kind := 0; kind < 2; kind++ {
-		for tamper := 0; tamper < 10; tamper++ {
+		for tamper := 0; tamper < 15; tamper++ {
 			if kind == 0 && tamper > 7 {
 				continue
 			}
 			runOne(vL(vZ(4), vI(kind), vI(tamper)))
 		}
+	}
+	runOne(vL(vZ(5), vS("dGhlIHNhbXBsZSBub25jZQ==")))
+	for _, n := range []int{0, 1, 18, 19, 20, 21, 27, 28, 29, 83, 84, 91, 92, 93, 200} {
+		runOne(vL(vZ(5), vB(k.rnd.bytes(n))))
 	}
 	n := k.N(700, 4000)
 	for i := 0; i < n; i++ {
@@ -462,6 +474,9 @@ func TestVerifC13(t *testing.T) {
 		if i%3 == 0 {
 			ln := k.rnd.pickInt(0, 1, 7, 15, 16, 17, 23, 24, 31, 32, 33, k.rnd.intn(200), k.rnd.intn(3000))
 			runOne(vL(vZ(1), vB(k.rnd.bytes(4)), vI(k.rnd.intn(1000)), vI(k.rnd.intn(8)), vB(k.rnd.bytes(ln))))
+		}
+		if i%5 == 2 {
+			runOne(vL(vZ(5), vB(k.rnd.bytes(k.rnd.pickInt(16, 24, 24, 24, k.rnd.intn(130))))))
 		}
 		if i%3 == 1 {
 			var chunks []vSx
